@@ -7,6 +7,10 @@ import warnings
 
 warnings.filterwarnings("ignore")
 
+from . import reach  # noqa: E402
+
+reach.start()
+
 # must happen at import time of the main module: spawned dask workers re-import it
 from . import inject  # noqa: E402,F401
 
